@@ -39,15 +39,16 @@ fn lockstep<S: Spec>(seed: &[u8], n_out: usize, image_every: usize, mix_widths: 
     let mut first = Vec::new();
     for k in 0..n_out {
         // the stream continues unchanged across clone() / clone_from()
-        if k % 97 == 41 {
-            if k % 2 == 0 {
+        if k % 11 == 5 && (n_out <= 4096 || k % 97 == 38) {
+            let variant = (k / 11) % 3;
+            if variant == 0 {
                 rng = rng.clone();
             } else {
                 // destination: unrelated, or differing from the current state in one word
-                let mut other = match (k % 3, model.state_bytes()) {
-                    (0, Some(mut st)) => {
+                let mut other = match (variant, model.state_bytes()) {
+                    (2, Some(mut st)) => {
                         let wbytes = word_bytes(S::FAMILY);
-                        let w = (k / 3) % (S::SEED_LEN / wbytes);
+                        let w = (k / 33 + id as usize) % (S::SEED_LEN / wbytes);
                         st[w * wbytes] ^= 0x10;
                         if st.iter().all(|&b| b == 0) { st[0] = 1; }
                         S::from_seed(&st)
